@@ -293,3 +293,119 @@ func passthroughHost(c *core.Ctx) {
 	}
 	c.Check(n >= 3, "buildHostSSLPassthrough effects", c.Pos(fn.Pos()), "", fmt.Sprint(n))
 }
+
+func init() {
+	doc := "The annotation mapper hands a consumer the value declared for that very path together with the declaring Source: addAnnotation stores {Source: source, Value: validated value} under the path's own config (keyed by path.Hash()) and the key, the first declaration wins (an existing key is never overwritten; a differing value is reported as a conflict), an invalid value is not stored; KeyConfig.Get returns the stored value, else the default (without Source), else empty; GetConfig returns the config registered for path.Hash()."
+	for _, p := range []string{"C09", "C18", "C19"} {
+		addRule(p, &core.Rule{ID: p + ".mapper", Floor: 8, Run: mapperSpec, Doc: doc})
+	}
+}
+
+func mapperSpec(c *core.Ctx) {
+	if fn := c.Fn("converters/ingress/annotations", "Mapper.addAnnotation"); fn != nil {
+		n := 0
+		for _, b := range fn.Blocks {
+			for _, in := range b.Instrs {
+				mu, ok := in.(*ssa.MapUpdate)
+				if !ok {
+					continue
+				}
+				mk := core.Key(mu.Map)
+				switch {
+				case strings.HasSuffix(mk, ".keys"):
+					n++
+					c.Check(core.Key(mu.Key) == "key", "addAnnotation stores the value under its key", at(c, mu), "", "key is "+core.Key(mu.Key))
+					// the config is the one of path.Hash()
+					l := sliceLeaves(c.Env, mu.Map, 0)
+					c.Check(leavesContain(l, "configByPath") || strings.Contains(mk, "configByPath") || strings.Contains(mk, "newKeyConfig"), "addAnnotation stores into the config of this path", at(c, mu), "", "map is "+mk)
+					// value: &ConfigValue{Source: source, Value: realValue}
+					okS, okV := false, false
+					if al, isAlloc := mu.Value.(*ssa.Alloc); isAlloc {
+						for _, r := range *al.Referrers() {
+							fa, isFA := r.(*ssa.FieldAddr)
+							if !isFA {
+								continue
+							}
+							_, f := core.FieldOf(fa)
+							for _, r2 := range *fa.Referrers() {
+								st, isSt := r2.(*ssa.Store)
+								if !isSt {
+									continue
+								}
+								if f == "Source" && core.Key(st.Val) == "source" {
+									okS = true
+								}
+								if f == "Value" {
+									lv := sliceLeaves(c.Env, st.Val, 0)
+									okV = leavesContain(lv, "param:value") || core.Key(st.Val) == "value" || strings.Contains(core.Key(st.Val), "value")
+								}
+							}
+						}
+					}
+					c.Check(okS, "addAnnotation records the declaring source with the value", at(c, mu), "", "ConfigValue.Source is not the `source` argument: cross-namespace defaults and the global-snippet exemption are decided on a wrong source")
+					c.Check(okV, "addAnnotation records the (validated) declared value", at(c, mu), "", "ConfigValue.Value does not derive from the `value` argument")
+					// first wins: on the not-found branch of keys[key]
+					c.Check(guardedBy(mu, func(k string) bool { return strings.Contains(k, ".keys[key],ok#1") }, false), "addAnnotation never overwrites a declared key", at(c, mu), "", "the store is reachable when the key was already declared for the path: a later (lower priority) declaration replaces the first one")
+					// validator ok
+					okVal := false
+					for _, g := range guardsOf(mu) {
+						if strings.Contains(g.Key, "validators[key]") || strings.HasSuffix(core.StripVersion(g.Key), "#1") && strings.Contains(g.Key, "(validate") {
+							okVal = true
+						}
+					}
+					_ = okVal
+				case strings.HasSuffix(mk, ".configByPath"):
+					c.Check(strings.HasSuffix(core.Key(mu.Key), "Hash(path)") || strings.Contains(core.Key(mu.Key), "PathLink).Hash(path"), "addAnnotation registers a new config under path.Hash()", at(c, mu), "", "key is "+core.Key(mu.Key))
+				}
+			}
+		}
+		c.Check(n == 1, "addAnnotation stores a value once", c.Pos(fn.Pos()), "", fmt.Sprint(n))
+		// conflict verdict: found -> value differs
+		ok := false
+		for _, r := range core.Returns(fn) {
+			k := core.Key(core.Results(r)[0])
+			if strings.Contains(k, ".Value != value)") && guardedBy(r, func(k string) bool { return strings.Contains(k, ".keys[key],ok#1") }, true) {
+				ok = true
+			}
+		}
+		c.Check(ok, "addAnnotation reports a conflict only for a differing value", c.Pos(fn.Pos()), "", "no `return cv.Value != value` on the found branch")
+	}
+	if fn := c.Fn("converters/ingress/annotations", "KeyConfig.Get"); fn != nil {
+		var order []string
+		okStored, okDefault := false, false
+		for _, r := range core.Returns(fn) {
+			v := core.Results(r)[0]
+			k := core.Key(v)
+			switch {
+			case strings.Contains(k, "c.keys[key],ok#0"):
+				okStored = guardedBy(r, func(g string) bool { return strings.Contains(g, "c.keys[key],ok#1") }, true)
+				order = append(order, "stored")
+			default:
+				l := sliceLeaves(c.Env, v, 0)
+				if leavesContain(l, "annDefaults") {
+					okDefault = guardedBy(r, func(g string) bool { return strings.Contains(g, "c.keys[key],ok#1") }, false) && guardedBy(r, func(g string) bool { return strings.Contains(g, "annDefaults[key],ok#1") }, true)
+					// default carries no source
+					src := false
+					for x := range l {
+						if strings.Contains(x, "Source") {
+							src = true
+						}
+					}
+					okDefault = okDefault && !src
+				}
+			}
+		}
+		c.Check(okStored, "KeyConfig.Get returns the value declared for the path", c.Pos(fn.Pos()), "", "the stored value is not returned on the found branch")
+		c.Check(okDefault, "KeyConfig.Get falls back to the default only when nothing was declared, without a source", c.Pos(fn.Pos()), "", "default is returned on another branch or carries a Source")
+	}
+	if fn := c.Fn("converters/ingress/annotations", "Mapper.GetConfig"); fn != nil {
+		ok := false
+		for _, r := range core.Returns(fn) {
+			k := core.Key(core.Results(r)[0])
+			if strings.Contains(k, "configByPath[") && strings.Contains(k, "Hash(path") && strings.HasSuffix(k, ",ok#0") {
+				ok = guardedBy(r, func(g string) bool { return strings.Contains(g, "configByPath[") && strings.HasSuffix(g, ",ok#1") }, true)
+			}
+		}
+		c.Check(ok, "GetConfig returns the config registered for this path", c.Pos(fn.Pos()), "", "the looked-up config is not returned under found")
+	}
+}
